@@ -109,7 +109,7 @@ fn check_path(t: &mut Tally, input: &str) {
 }
 
 const PATTERNS: [&str; 7] = ["p-[0-9]*", "p>=1<2", "{p,q}-1", "p-1", "p>1>2", "{p", ""];
-const PATHS: [&str; 8] = ["c/p", "../../c/p", "c", "a/b/c", "a/../b", "", "c//p/", "./c/p"];
+const PATHS: [&str; 11] = ["c/p", "../../c/p", "c", "a/b/c", "a/../b", "", "c//p/", "./c/p", "c/p\n", "c/\n", "../../c/p/\n"];
 
 fn check_depend(t: &mut Tally, pat: &str, path: &str, colons: &[usize]) {
     // colons[i] = number of ':' inserted at: 0 = before, 1 = between the halves, 2 = after
@@ -199,7 +199,7 @@ fn main() {
          inputs the short / full accessors (as paths), equality and equal hashes of the value with \
          both canonical spellings, and re-parsing each accessor's text. Dependencies: 7 pattern \
          halves (glob, two-bound dewey, brace, plain, invalid operator order, unbalanced brace, \
-         empty) x 8 path halves (short, long, one segment, three segments, 'a/../b', empty, \
+         empty) x 11 path halves (short, long, one segment, three segments, 'a/../b', empty, \
          repeated slashes, leading './') x 0-3 colons before, between and after the halves: Ok iff \
          the assembled string has exactly one ':' and both halves are valid; parts equal to the \
          halves parsed directly; error variant names the failing part. Non-trivial = accepted \
@@ -235,5 +235,21 @@ fn main() {
     }
     run.bound(format!("{} dependency strings", count));
     run.merge(t);
+    // scale: long paths
+    {
+        let mut t = Tally::new();
+        for n in [8usize, 64, 1000, 5000] {
+            for (a, sep, b, tail) in [("a", "/", "b", ""), ("a", "/./", "b", "/."), ("..", "/", "../a/b", "/"), ("a", "/", "b", "/c"), ("", "/", "a/b", ""), (".", "/", "a/b", "")] {
+                let p = format!("{}{}{}{}", a, sep.repeat(n), b, tail);
+                t.states += 1;
+                t.transitions += 1;
+                check_path(&mut t, &p);
+                check_path(&mut t, &format!("{}{}", "a/".repeat(n), "b"));
+                check_depend(&mut t, "p-[0-9]*", &p, &[0, 1, 0]);
+            }
+        }
+        run.bound("scale: paths with 8..5000 repeated separators / '.' segments / name segments");
+        run.merge(t);
+    }
     run.finish();
 }
